@@ -121,18 +121,24 @@ def _raise_class(e):
 
 
 def _own_condition(e, events):
-    """The condition of the innermost `if` enclosing the raise e (as a literal), or None."""
+    """The condition of the innermost `if` enclosing the raise e (as a literal), or None.  A raise that is the whole
+    point of an expanded helper (`_refuse(msg)`: no `if` around it inside the helper) takes the condition around
+    the call of the helper."""
     import ast
-    node = e.node
-    parent = getattr(node, '_parent', None)
-    child = node
-    while parent is not None and not isinstance(parent, (ast.If, ast.FunctionDef)):
-        child, parent = parent, getattr(parent, '_parent', None)
-    if not isinstance(parent, ast.If):
-        return None
+    node, ctx = e.node, tuple(e.ctx)
+    while True:
+        parent = getattr(node, '_parent', None)
+        child = node
+        while parent is not None and not isinstance(parent, (ast.If, ast.FunctionDef, ast.AsyncFunctionDef, ast.Lambda)):
+            child, parent = parent, getattr(parent, '_parent', None)
+        if isinstance(parent, ast.If):
+            break
+        if not ctx:
+            return None
+        node, ctx = ctx[-1].node, ctx[:-1]          # go on from the call site of the helper
     in_body = any(child is x for x in parent.body)
     for c in events:
-        if c.kind == 'cond' and c.node is parent and c.ctx == e.ctx and c.seq < e.seq:
+        if c.kind == 'cond' and c.node is parent and tuple(c.ctx) == ctx and c.seq < e.seq:
             cond = c.value
             return cond if in_body else T.mk_not(cond)
     return None
